@@ -1,7 +1,10 @@
 pub mod c09;
 pub mod c10;
+pub mod c12;
 pub mod c13;
 pub mod c14;
 pub mod c15;
 pub mod c16;
 pub mod c17;
+
+pub fn c13_perm(seed: u32, n: usize) -> Vec<usize> { c13::perm_of(seed, n) }
